@@ -55,6 +55,7 @@ func (c *StdCheck) Main() {
 		run.Finish(nil, nil)
 	}
 	scs, rule, bounds := c.Build(run)
+	scs = Interleave(scs)
 	var budget time.Duration
 	if c.Budget != nil {
 		budget = c.Budget(run)
@@ -82,6 +83,12 @@ func Product(cfgs []Scenario, menuFor func(cfg Scenario) []Rule, d int) []*Scena
 		for _, rs := range Subsets(menu, d) {
 			sc := cfg
 			sc.Rules = rs
+			if sc.Extra == "" {
+				sc.Extra = "menu"
+				if sc.ValChange != nil {
+					sc.Extra = "menu+valchange"
+				}
+			}
 			c := sc
 			out = append(out, &c)
 		}
@@ -129,6 +136,7 @@ func DeviationScenarios(bases []Scenario, d int, workBase string, maxPairs int) 
 		info[fmt.Sprintf("base%d_single_deviations", bi)] = len(singles)
 		mk := func(ds ...dv) *Scenario {
 			sc := b
+			sc.Extra = "delay-bounded"
 			sc.Rules = append([]Rule{}, b.Rules...)
 			for _, x := range ds {
 				sc.Rules = append(sc.Rules, Rule{Kind: "dev", K: x.k, Delay: x.alt})
@@ -184,6 +192,10 @@ func CrashScenarios(bases []Scenario, workBase string, stepK int, delays []int) 
 			for k := 1; k <= w; k += stepK {
 				for _, d := range delays {
 					sc := b
+					sc.Extra = "crash"
+					if b.NoProposerFix {
+						sc.Extra = "crash-no-proposer-repair"
+					}
 					sc.Rules = append(append([]Rule{}, b.Rules...), Rule{Kind: "crash", Node: n, K: k, Delay: d})
 					out = append(out, &sc)
 				}
@@ -191,4 +203,31 @@ func CrashScenarios(bases []Scenario, workBase string, stepK int, delays []int) 
 		}
 	}
 	return out, info
+}
+
+// Interleave reorders scenarios round-robin over their families (Scenario.Extra),
+// keeping the order inside each family: a budget cut then reaches into every family
+// (each still fewest-deviations-first) instead of dropping whole families.
+func Interleave(scs []*Scenario) []*Scenario {
+	var order []string
+	fam := map[string][]*Scenario{}
+	for _, sc := range scs {
+		if _, ok := fam[sc.Extra]; !ok {
+			order = append(order, sc.Extra)
+		}
+		fam[sc.Extra] = append(fam[sc.Extra], sc)
+	}
+	out := make([]*Scenario, 0, len(scs))
+	for len(out) < len(scs) {
+		for _, f := range order {
+			// take a slice of 8 at a time so that worker batches stay homogeneous
+			k := 8
+			if k > len(fam[f]) {
+				k = len(fam[f])
+			}
+			out = append(out, fam[f][:k]...)
+			fam[f] = fam[f][k:]
+		}
+	}
+	return out
 }
